@@ -255,7 +255,11 @@ NAMINGS = [None,
            lambda i: 's%d' % i,
            lambda i: (i, 'x'),
            lambda i: 'state_%s' % 'abcdefghij'[i],
-           lambda i: frozenset([i, 'f'])]
+           lambda i: frozenset([i, 'f']),
+           # mutually unorderable states in one structure
+           lambda i: [0, 'a', (1, 2), frozenset(['z']), 4.5, 'b', (7,),
+                      'nine', 9][i],
+           lambda i: [('t', 0), 's', 2, ('u',), 'v', 5, 6.5, 't', 8][i]]
 
 
 def rename_states(nk, k):
